@@ -53,6 +53,9 @@ def valMonStep (_ : Unit) (w : List String) : Unit × String :=
   | ["dec", "read", _] => "ok"
   | ["str", "read", h] => if obs == ["ok", h] then "ok" else "bad str_not_identity"
   | ["ts", "read", h] => (match fromHex h with | some b => verdict (monTsRead b obs) | none => "bad-op")
+  | "tsz" :: "write" :: _ :: p :: rest => (match rest.mapM (·.toNat?) with
+      | some t => verdict (monTsWrite p t obs)
+      | none => "bad-op")
   | "ts" :: "write" :: p :: rest => (match rest.mapM (·.toNat?) with
       | some t => verdict (monTsWrite p t obs)
       | none => "bad-op")
